@@ -89,8 +89,8 @@ Qed.
 End L.
 
 (* ---- layouts: channel axes are untouched, spatial axes double and crop back ---------- *)
-Lemma layout_2d h w : padded_shape [h; w] None = Some [2 * h; 2 * w].
-Proof. reflexivity. Qed.
+Lemma layout_2d h w : 5 <= w -> padded_shape [h; w] None = Some [2 * h; 2 * w].
+Proof. intros H; unfold padded_shape, spatial_axes. replace (w <? 5) with false by lia. reflexivity. Qed.
 Lemma layout_3d k h w : 5 <= w -> padded_shape [k; h; w] None = Some [k; 2 * h; 2 * w].
 Proof. intros H; unfold padded_shape, spatial_axes. replace (w <? 5) with false by lia. reflexivity. Qed.
 Lemma layout_4d_first k c h w : 5 <= w -> padded_shape [k; c; h; w] None = Some [k; c; 2 * h; 2 * w].
@@ -103,15 +103,18 @@ Proof. lia. Qed.
 
 Lemma layout_crop_inverts_pad shape : Forall (fun s => 1 <= s) shape ->
   (forall n, nth_error shape 2 = Some n -> length shape = 3%nat -> 5 <= n) ->
+  (forall n, nth_error shape 1 = Some n -> length shape = 2%nat -> 5 <= n) ->
   match padded_shape shape None with
   | Some p => (length shape = 4%nat -> 5 <= nth 3 shape 0 -> 5 <= nth 3 p 0) -> cropped_shape p None = Some shape
   | None => True
   end.
 Proof.
-  intros Hpos H3.
+  intros Hpos H3 H2.
   destruct shape as [|a [|b [|c [|d [|e r]]]]]; try exact I.
-  - intros _. unfold padded_shape, cropped_shape, spatial_axes, crop_len_default, default_size.
-    cbn [nth set_nth]. rewrite !half_double. reflexivity.
+  - specialize (H2 b eq_refl eq_refl). unfold padded_shape, spatial_axes.
+    replace (b <? 5) with false by lia. cbn [nth set_nth]. intros _.
+    unfold cropped_shape, spatial_axes, default_size. replace (2 * b <? 5) with false by lia.
+    cbn [nth set_nth]. unfold crop_len_default. rewrite !half_double. reflexivity.
   - specialize (H3 c eq_refl eq_refl). unfold padded_shape, spatial_axes.
     replace (c <? 5) with false by lia. cbn [nth set_nth]. intros _.
     unfold cropped_shape, spatial_axes, default_size. replace (2 * c <? 5) with false by lia.
